@@ -89,6 +89,8 @@ SPECS = {
     'CORRELOGRAMPSD': dict(module='correlog', oracle_calls=('xcorr',)),     # the xcorr branch stays an oracle call
     # the 1-D path: the bodies of the `if x.ndim == 2:` tests are not translated ([SUnsupported]: entering one is the outcome OErr Unsupported)
     'speriodogram': dict(module='periodogram', unsupported_if=('x.ndim == 2',)),
+    # T10: arma_estimate with CORRELATION, arcovar_marple (P <= 4) and ma embedded; the scipy-lstsq solver arcovar (P > 4) stays an ORACLE call
+    'arma_estimate': dict(module='arma', oracle_calls=('arcovar',)),
 }
 # oracle calls of a function when it is translated as a CALLEE (its hidden oracle parameters become hidden parameters of the caller)
 CALLEE_ORACLES = {('correlation', 'CORRELATION'): ('pylab_rms_flat',)}
@@ -554,12 +556,36 @@ class FnTranslator:
         els = t.elts if isinstance(t, (ast.Tuple, ast.List)) else ([t] if isinstance(t, ast.Name) else None)
         if els is None or not all(isinstance(e, ast.Name) for e in els) or c.func.id in self.assigned:
             self.fail(s, 'oracle call of unexpected shape')
-        if not all(isinstance(x, ast.Name) for x in c.args) or not all(k.arg is not None and isinstance(k.value, ast.Name) for k in c.keywords):
+        if not all(self.oracle_arg_ok(x) for x in c.args) or not all(k.arg is not None and isinstance(k.value, ast.Name) for k in c.keywords):
             self.fail(s, 'oracle call whose arguments are not plain names')
         b = name_bindings(self.modtree, c.func.id)
         if len(b) != 1 or b[0][0] != 'import' or package_module_of(b[0][1]) is None:
             self.fail(s, 'the oracle %s is not bound exactly once, by an import of a function of the package' % c.func.id)
+        if isinstance(t, ast.Name):
+            # T10: the number of values is the one the oracle function's source returns (1: one hidden parameter; n >= 2: `t` is a tuple name)
+            if getattr(s, '_oracle_arity', None) is None:
+                self.fail(s, 'oracle call bound to a name outside the translated statements')
+            return s._oracle_arity
         return len(els)
+
+    def oracle_fn_arity(self, s):
+        """T10: the number of values the oracle function of `name = f(..)` returns on every path, read from ITS source (the name must be bound exactly
+        once at module level by an import of a function of the package)"""
+        c = s.value
+        b = name_bindings(self.modtree, c.func.id)
+        if c.func.id in self.assigned or len(b) != 1 or b[0][0] != 'import' or package_module_of(b[0][1]) is None or self.loader is None:
+            self.fail(s, 'the oracle %s is not bound exactly once, by an import of a function of the package' % c.func.id)
+        M = package_module_of(b[0][1])
+        fndef = find_function(self.loader.tree(M, s), b[0][2].name, s, modname=M + '.py')
+        ar = return_arities(fndef)
+        if len(ar) != 1:
+            self.fail(s, 'the oracle %s does not return the same number of values on every path' % c.func.id)
+        return min(ar)
+
+    def oracle_arg_ok(self, x):
+        """an argument of an oracle call: a plain name, or (T10) `<name>.copy()` of a name (evaluated for its exceptions, see stmt)"""
+        return isinstance(x, ast.Name) or (isinstance(x, ast.Call) and isinstance(x.func, ast.Attribute) and x.func.attr == 'copy' and not x.args
+                                           and not x.keywords and isinstance(x.func.value, ast.Name))
 
     def resolve_callee(self, f, where):
         """(module, its tree, FunctionDef) if the call target `f` / `m.f` names a function of the package, resolved syntactically through the
@@ -659,13 +685,24 @@ class FnTranslator:
                     self.tuple_vars.setdefault(n.targets[0].id, set()).add(min(ar))
                 elif ar != {1}:
                     self.fail(n, 'the callee does not return the same number of values on every path')
+        # T10: `res = arcovar(Y.copy(), P)` for a function the spec declares an ORACLE call: the number of values it returns is read from its
+        # source (resolved through the imports); n >= 2 makes `res` a tuple name as well (arma_estimate binds `res` to the 5 results of
+        # arcovar_marple in one branch and to the 2 results of arcovar in the other, and reads res[0])
+        self.tuple_arities = {}
+        for n in allnodes:
+            if isinstance(n, ast.Assign) and len(n.targets) == 1 and isinstance(n.targets[0], ast.Name) and isinstance(n.value, ast.Call) \
+                    and isinstance(n.value.func, ast.Name) and n.value.func.id in self.oracle_call_fns:
+                ar = self.oracle_fn_arity(n)
+                n._oracle_arity = ar
+                if ar >= 2:
+                    self.tuple_vars.setdefault(n.targets[0].id, set()).add(ar)
         if not self.tuple_vars:
             return
         argnames = {x.arg for x in fn.args.args} | set(self.spec.get('params', ()))
         ok_nodes = set()
         for n in allnodes:
-            if isinstance(n, ast.Assign) and len(n.targets) == 1 and isinstance(n.targets[0], ast.Name) and hasattr(n.value, '_callee') \
-                    and n.targets[0].id in self.tuple_vars:
+            if isinstance(n, ast.Assign) and len(n.targets) == 1 and isinstance(n.targets[0], ast.Name) \
+                    and (hasattr(n.value, '_callee') or getattr(n, '_oracle_arity', 0) >= 2) and n.targets[0].id in self.tuple_vars:
                 ok_nodes.add(id(n.targets[0]))
             if isinstance(n, ast.Subscript) and isinstance(n.value, ast.Name) and n.value.id in self.tuple_vars and isinstance(n.ctx, ast.Load):
                 i = n.slice
@@ -678,14 +715,19 @@ class FnTranslator:
                 ar = self.tuple_vars[n.value.id]
                 if len(ar) == 1 and -min(ar) <= v < min(ar):
                     n._tuple_index = v % min(ar); ok_nodes.add(id(n.value))
+                elif len(ar) > 1 and 0 <= v < min(ar):
+                    # T10: tuples of DIFFERENT lengths (one per branch): only a non-negative index below the shortest length denotes the same
+                    # component, and exists, whichever call bound the name
+                    n._tuple_index = v; ok_nodes.add(id(n.value))
         for n in allnodes:
             if isinstance(n, ast.Name) and n.id in self.tuple_vars:
-                if n.id in argnames or len(self.tuple_vars[n.id]) != 1:
-                    self.fail(n, 'a name bound to the tuple a call returns is a parameter / bound to tuples of different lengths')
+                if n.id in argnames:
+                    self.fail(n, 'a name bound to the tuple a call returns is a parameter')
                 if id(n) not in ok_nodes:
                     self.fail(n, 'a name bound to the tuple a call returns may only be bound by such calls and read as name[<int literal>] (%s)' % n.id)
         for nm in sorted(self.tuple_vars):
-            self.tuple_vars[nm] = min(self.tuple_vars[nm])
+            self.tuple_arities[nm] = set(self.tuple_vars[nm])
+            self.tuple_vars[nm] = max(self.tuple_vars[nm])         # the number of slots
 
     def find_list_vars(self, fn):
         """Python lists that are appended to (`pbv = []` ... `pbv.append(pb)` ... `return ..., pbv`).  A name on which
@@ -833,6 +875,8 @@ class FnTranslator:
         if isinstance(e, ast.Subscript):
             if isinstance(e.slice, ast.Tuple):
                 return not any(isinstance(x, ast.Slice) for x in e.slice.elts)      # U[i, a:b] is a view, U[i, j] a scalar
+            if isinstance(e.value, ast.Name) and e.value.id in getattr(self, 'tuple_vars', {}):
+                return False           # T10: res[0] of a tuple name is the ARRAY the callee returned (it may be a view of the callee's argument)
             return not isinstance(e.slice, ast.Slice)
         if isinstance(e, ast.Call):
             f = e.func
@@ -880,6 +924,13 @@ class FnTranslator:
                             shared.discard(t.id)           # T7: the callee returns a fresh array on every path (tools.twosided_2_centerdc: fftshift)
                         elif self.is_real_view_of(s.value, t.id) and t.id not in shared:
                             pass                           # T7: `x = numpy.real(x)` for an unshared x: the view is the only way left to reach the array
+                        elif isinstance(s.value, ast.Call) and (hasattr(s.value, '_callee') or hasattr(s, '_oracle_slots')):
+                            # T10: the results of a call may be (views of) its array arguments: they share with the arguments that are not fresh
+                            # (`res = arcovar_marple(Y.copy(), P)` leaves Y unshared), exactly as for a tuple target below
+                            shared.add(t.id)
+                            for a in list(s.value.args) + [k.value for k in s.value.keywords]:
+                                if not self.is_fresh(a):
+                                    shared |= names(a)
                         else:
                             shared |= names(s.value) | {t.id}
                     elif isinstance(t, ast.Subscript) and isinstance(t.value, ast.Name):
@@ -995,10 +1046,19 @@ class FnTranslator:
             if hasattr(s, '_oracle_slots'):
                 # T7: `a, b = xcorr(..)`: the results are hidden parameters
                 els = t.elts if isinstance(t, (ast.Tuple, ast.List)) else [t]
+                # T10: arguments that are not plain names (`Y.copy()`) are evaluated, left to right, for their exceptions; the values are discarded
+                pre = ['SAssign %d %s' % (self.new_slot('%s@arg#%d' % (s.value.func.id, len(self.slots))), self.expr(a))
+                       for a in s.value.args if not isinstance(a, ast.Name)]
+                if isinstance(t, ast.Name) and t.id in self.tuple_vars:
+                    # T10: `res = arcovar(..)`, arcovar returning n >= 2 values: the n hidden parameters go to the first n slots of the tuple name
+                    if t.id in self.matrix_vars or t.id in self.crit_objs or t.id in self.list_vars or getattr(s, '_oracle_arity', 0) != len(s._oracle_slots) \
+                            or len(s._oracle_slots) not in self.tuple_arities[t.id]:
+                        self.fail(s, 'oracle result bound to a 2-D array / Criteria / list name')
+                    return self.seq(pre + ['SAssign %d (EVar %d)' % (x, h) for x, h in zip(self.tuple_slots(t.id), s._oracle_slots)])
                 for el in els:
                     if el.id in self.matrix_vars or el.id in self.crit_objs or el.id in self.list_vars or el.id in self.tuple_vars:
                         self.fail(s, 'oracle result bound to a 2-D array / Criteria / list / tuple name')
-                return self.seq(['SAssign %d (EVar %d)' % (self.slot_of_local(el.id), h) for el, h in zip(els, s._oracle_slots)])
+                return self.seq(pre + ['SAssign %d (EVar %d)' % (self.slot_of_local(el.id), h) for el, h in zip(els, s._oracle_slots)])
             if isinstance(t, ast.Name) and isinstance(s.value, ast.Call) and hasattr(s.value, '_oracle_slot') and isinstance(s.value.func, ast.Name) \
                     and s.value.func.id in self.window_names:
                 if t.id in self.matrix_vars or t.id in self.crit_objs or t.id in self.list_vars or t.id in self.tuple_vars:
@@ -1212,22 +1272,27 @@ class FnTranslator:
         if t.id in self.matrix_vars or t.id in self.crit_objs or t.id in self.list_vars:
             self.fail(s, 'call result bound to a 2-D array / Criteria / list name')
         if t.id in self.tuple_vars:
-            n = self.tuple_vars[t.id]
-            if prog.arities != {n}:
-                self.fail(s, 'the callee does not return %d values on every path' % n)
+            if len(prog.arities) != 1 or min(prog.arities) not in self.tuple_arities[t.id]:
+                self.fail(s, 'the callee does not return %s values on every path' % sorted(self.tuple_arities[t.id]))
             for i in prog.matrix_rets:
                 if any(isinstance(m, ast.Subscript) and isinstance(m.value, ast.Name) and m.value.id == t.id and getattr(m, '_tuple_index', None) == i
                        for m in ast.walk(self.fn)):
                     self.fail(s, 'a 2-D array returned by the callee is read')
-            slots = [self.lookup('%s@%d' % (t.id, i)) for i in range(n)]
-            if slots[0] is None:
-                slots = []
-                for i in range(n):
-                    x = self.new_slot('%s@%d' % (t.id, i)); self.scopes[0]['%s@%d' % (t.id, i)] = x; slots.append(x)
+            slots = self.tuple_slots(t.id)[:min(prog.arities)]
             return 'SCall [%s] %d %s %d\n(%s)\n[%s]' % (('; '.join('%d%%nat' % x for x in slots),) + parts)
         if prog.arities != {1} or prog.matrix_rets:
             self.fail(s, 'the callee does not return exactly one (1-D / scalar) value on every path')
         return 'SCall1 %d %d %s %d\n(%s)\n[%s]' % ((self.slot_of_local(t.id),) + parts)
+
+    def tuple_slots(self, name):
+        """the slots name@0 .. name@n-1 of a tuple name (n = the longest tuple it is bound to), created at the first binding statement"""
+        n = self.tuple_vars[name]
+        slots = [self.lookup('%s@%d' % (name, i)) for i in range(n)]
+        if slots[0] is None:
+            slots = []
+            for i in range(n):
+                x = self.new_slot('%s@%d' % (name, i)); self.scopes[0]['%s@%d' % (name, i)] = x; slots.append(x)
+        return slots
 
     def is_int_promotion(self, s):
         """exactly `if <x>.dtype.kind in '<subset of iub>': <x> = <x>.astype(float)` for a local array <x> (no else):
@@ -1883,6 +1948,7 @@ SELFTEST3_BAD = [           # (what, module, old, new)
     ('callee returns different numbers of values', 'modh', "    return b, U, e", "    if flag:\n        return b\n    return b, U, e"),
     ('one-value call of a callee that returns a 2-D array', 'modh', "    b = a[0:n]\n    return b", "    b = numpy.zeros((2, 2))\n    return b"),
     ('store through a call result that may alias the argument (other module)', 'modf', "    t = mh.h(b, e)", "    b[0] = 1\n    t = mh.h(b, e)"),
+    ('store through a component of a tuple name (T10)', 'modf', "    d = modh.h1(t[0])", "    d = t[0]\n    d[0] = 1\n    d = modh.h1(t[0])"),
     ('store through a one-value call result', 'modf', "    q = hh(d, 1)", "    q = hh(d, 1)\n    q[0] = 1"),
     ('unknown exception class raised', 'modf', "raise NotImplementedError", "raise KeyError"),
     ('oracle of the callee called in an unexpected shape', 'correlation', "pylab_rms_flat(x)", "pylab_rms_flat(x, 1)"),
@@ -2027,6 +2093,65 @@ SELFTEST4_BAD = [           # (what, module, old, new)
 ]
 
 
+# T10 (arma_estimate): a name bound to the tuples TWO calls return (an embedded callee returning 3 values, an ORACLE call returning 2), read as
+# res[0]; oracle arguments of the form <name>.copy(); the aliasing of call results bound to a name
+SELFTEST5_SPEC = dict(module='moda', oracle_calls=('lsq',))
+SELFTEST5_OK = {
+    '__init__': """
+from .solv import *
+from .moda import *
+""",
+    'solv': """
+import numpy
+__all__ = ['fast', 'lsq']
+def fast(y, p):
+    a = numpy.zeros(len(y), dtype=complex)
+    e = 1.
+    b = numpy.zeros(len(y), dtype=complex)
+    return a, e, b
+def lsq(y, p):
+    return y, 0.
+""",
+    'moda': """
+import numpy as np
+from .solv import fast, lsq
+__all__ = ['f']
+def f(x, p):
+    y = np.zeros(len(x), dtype=complex)
+    y.resize(4, refcheck=False)
+    if p <= 2:
+        res = fast(y.copy(), p)
+        a = res[0][0:p]
+    else:
+        res = lsq(y.copy(), p)
+        a = res[0]
+    y.resize(len(x) - p, refcheck=False)
+    return a, y
+""",
+}
+SELFTEST5_BAD = [           # (what, module, old, new)
+    ('tuple name of mixed lengths indexed at the shortest length', 'moda', "        a = res[0]\n", "        a = res[2]\n"),
+    ('tuple name of mixed lengths indexed from the end', 'moda', "res[0][0:p]", "res[-3][0:p]"),
+    ('tuple name of mixed lengths used as a value', 'moda', "        a = res[0]\n", "        a = res\n"),
+    ('oracle call with an arithmetic argument', 'moda', "lsq(y.copy(), p)", "lsq(y.copy() * 2, p)"),
+    ('oracle call with a slice view as argument', 'moda', "lsq(y.copy(), p)", "lsq(y[0:2], p)"),
+    ('oracle call with copy(order)', 'moda', "lsq(y.copy(), p)", "lsq(y.copy('C'), p)"),
+    ('oracle call with a keyword expression', 'moda', "lsq(y.copy(), p)", "lsq(y.copy(), p=p + 1)"),
+    ('oracle bound to a name returns different numbers of values', 'solv', "    return y, 0.", "    if p:\n        return y\n    return y, 0."),
+    ('oracle bound to a tuple name returns one value', 'solv', "    return y, 0.", "    return y"),
+    ('oracle bound to a name is not a function of the package', 'moda', "from .solv import fast, lsq", "from .solv import fast\nfrom os.path import join as lsq"),
+    ('oracle bound to a name is rebound at module level', 'moda', "from .solv import fast, lsq", "from .solv import fast, lsq\nlsq = len"),
+    ('oracle bound to a name is defined twice', 'solv', "def lsq(y, p):", "def lsq(y):\n    return y, 1.\ndef lsq(y, p):"),
+    ('oracle function the module does not define', 'solv', "def lsq(y, p):", "def lsq2(y, p):"),
+    ('resize after the array itself was handed to a callee bound to a name', 'moda', "res = fast(y.copy(), p)", "res = fast(y, p)"),
+    ('resize after the array itself was handed to an oracle bound to a name', 'moda', "res = lsq(y.copy(), p)", "res = lsq(y, p)"),
+    ('store through a component of a tuple name', 'moda', "        a = res[0]\n", "        a = res[0]\n        a[0] = 1\n"),
+    ('in-place update of a component of a tuple name', 'moda', "        a = res[0]\n", "        a = res[0]\n        a *= 2\n"),
+    ('oracle result bound to a name that is also a list', 'moda', "        a = res[0]\n", "        a = res[0]\n        res.append(1)\n"),
+    ('tuple name rebound to an array', 'moda', "        a = res[0]\n", "        a = res[0]\n        res = y\n"),
+]
+
+
 def translator_selftest():
     """the names of the self-test edits that the translator wrongly accepts (must be empty), or a failure of the base case"""
     spec = dict(module='selftest')
@@ -2046,7 +2171,14 @@ def translator_selftest():
         ld = Loader(srcs, only=True)
         tree = ld.tree('modk')
         return FnTranslator(tree, find_function(tree, 'f'), SELFTEST4_SPEC, 'f', modname='modk', loader=ld).translate()
+    def tr5(srcs):
+        ld = Loader(srcs, only=True)
+        tree = ld.tree('moda')
+        return FnTranslator(tree, find_function(tree, 'f'), SELFTEST5_SPEC, 'f', modname='moda', loader=ld).translate()
     try:
+        p5 = tr5(SELFTEST5_OK)
+        if len(p5.oracle_params) != 2 or p5.body.count('SCall [') != 1 or p5.body.count('SResize ') != 2 or p5.body.count('ECopy ') != 2:
+            return ['base case 5: unexpected translation']
         tr(SELFTEST_OK)
         tr2(SELFTEST2_OK)
         p3 = tr3(SELFTEST3_OK)
@@ -2073,6 +2205,15 @@ def translator_selftest():
         assert old in SELFTEST4_OK[mod], what
         try:
             tr4(dict(SELFTEST4_OK, **{mod: SELFTEST4_OK[mod].replace(old, new, 1)}))
+            bad.append(what)
+        except Untranslatable:
+            pass
+        except SyntaxError as e:     # pragma: no cover
+            bad.append('%s (self-test edit does not parse: %s)' % (what, e))
+    for what, mod, old, new in SELFTEST5_BAD:
+        assert old in SELFTEST5_OK[mod], what
+        try:
+            tr5(dict(SELFTEST5_OK, **{mod: SELFTEST5_OK[mod].replace(old, new, 1)}))
             bad.append(what)
         except Untranslatable:
             pass
@@ -3005,6 +3146,12 @@ EXTRA_MODULES = {'arcovar_marple': 'Spectrum.Model.LoopIRMarple', 'modcovar_marp
                  'rlevinson': 'Spectrum.Model.LoopIRRlev'}
 EXTRA_MODULES.update({nm: 'Spectrum.Model.LoopIRVec' for nm in ('arma2psd', 'minvar', 'CORRELOGRAMPSD', 'speriodogram')})
 EXTRA_MODULES.update({nm: 'Spectrum.Model.LoopIRWrap' for nm in ('aryule', 'ma', 'ac2poly', 'ac2rc', 'poly2ac', 'poly2rc', 'ar2rc', 'rc2poly', 'rc2ac')})
+# T10: arma_estimate (comparator coq/Model/LoopIRArma.v, generator props/_loopir_arma.py)
+from props import _loopir_arma as _arma       # noqa: E402
+GENERATORS['arma_estimate'] = _arma.gen_arma_estimate
+EXACT_BUDGET['arma_estimate'] = (44, 260)
+EXTRA_MODULES['arma_estimate'] = 'Spectrum.Model.LoopIRArma'
+EXACT_SHARD = {'arma_estimate': (1, 4)}       # cases per file of the exact comparison (default 24 / 100): these cases take 1..20 s each
 
 # ---------------------------------------------------------------- LEVINSON: translation + theorem
 LEV_PROOF = 'Proofs/LoopIRLevinson.v'
@@ -3874,7 +4021,7 @@ def loopir_tie(ctx, names):
     t0 = time.time()
     info = ctx.extra.setdefault('loopir', {})
     wrong = translator_selftest()
-    info['translator_selftest'] = {'edits_that_must_be_rejected': len(SELFTEST_BAD) + len(SELFTEST2_BAD) + len(SELFTEST3_BAD) + len(SELFTEST4_BAD), 'wrongly_accepted': wrong}
+    info['translator_selftest'] = {'edits_that_must_be_rejected': len(SELFTEST_BAD) + len(SELFTEST2_BAD) + len(SELFTEST3_BAD) + len(SELFTEST4_BAD) + len(SELFTEST5_BAD), 'wrongly_accepted': wrong}
     if wrong:
         ctx.broken.append({'theorem': 'loopir: translator self-test (fail-closed behaviour)', 'where': '_loopir.py', 'log': '; '.join(wrong)})
     progs = {}
@@ -3996,8 +4143,8 @@ def loopir_tie(ctx, names):
 
     def one(job):
         nm, c = job
-        bad = ctx.coq_cases('loopir_%s' % nm, pre, c.exact, shard=ctx.q(24, 100), descr='IR program of %s (regenerated from the source) vs the hand-written model: exact equality at QcC' % nm)
-        bad2 = ctx.coq_cases('loopir_%s_impl' % nm, pre, c.impl, descr='IR program of %s run at QcC vs the implementation (float tolerance): sanity of the translation' % nm)
+        bad = ctx.coq_cases('loopir_%s' % nm, pre, c.exact, shard=ctx.q(*EXACT_SHARD.get(nm, (24, 100))), descr='IR program of %s (regenerated from the source) vs the hand-written model: exact equality at QcC' % nm)
+        bad2 = ctx.coq_cases('loopir_%s_impl' % nm, pre, c.impl, shard=(EXACT_SHARD[nm][0] if nm in EXACT_SHARD else 250), descr='IR program of %s run at QcC vs the implementation (float tolerance): sanity of the translation' % nm)
         bad3 = ctx.coq_cases('loopir_%s_ls' % nm, pre, c.spec, shard=ctx.q(12, 45), descr=c.spec_descr) if c.spec else []
         bad4 = ctx.coq_cases('loopir_%s_float' % nm, _vec.PRE_FLT + defs + _vec.PRE_FLT_TAIL, c.flt, shard=ctx.q(20, 60),
                              descr='IR program of %s run at binary64 (twiddle table from the harness) vs the hand-written model (bit for bit where the model performs the same '
